@@ -385,13 +385,13 @@ def c20(ctx):
                          {"assignments": 1, "extras": ["subst"], "event_every": 200, "event_cap": 1500, "nontrivial_min_ops": 1})
 
 def c06(ctx):
-    return grammar_check(ctx, {"value", "ok_on_semantic_err", "err_on_defined", "profile_diff"}, {"*": 5}, {"*": 6},
+    return grammar_check(ctx, {"value", "ok_on_semantic_err", "err_on_defined", "profile_diff", "panic", "abort"}, {"*": 5}, {"*": 6},
                          {"assignments": 1, "boundary_pool": True, "full_placeholders": True, "max_assign": 700 if ctx.quick() else 6000,
                           "event_every": 500, "event_cap": 2000, "nontrivial_min_ops": 1}, evals=["i64"], invs=[],
                          sem={"w_quick": 6, "w_thorough": 8, "invs": ("C06Exact",)})
 
 def c09(ctx):
-    return grammar_check(ctx, {"value", "ok_on_semantic_err", "err_on_defined", "profile_diff"}, {"*": 5}, {"*": 6},
+    return grammar_check(ctx, {"value", "ok_on_semantic_err", "err_on_defined", "profile_diff", "panic", "abort"}, {"*": 5}, {"*": 6},
                          {"assignments": 1, "boundary_pool": True, "full_placeholders": True, "max_assign": 700 if ctx.quick() else 6000,
                           "event_every": 500, "event_cap": 2000, "nontrivial_min_ops": 1}, evals=["num"], invs=[],
                          sem={"w_quick": 6, "w_thorough": 8, "invs": ("C09IntegerWhenFits", "C09Rounding")})
@@ -674,7 +674,7 @@ def c05(ctx):
 
 def c07(ctx):
     q = ctx.quick()
-    return grammar_check(ctx, {"value", "ok_on_semantic_err", "err_on_defined", "profile_diff"}, {"*": 5}, {"*": 6},
+    return grammar_check(ctx, {"value", "ok_on_semantic_err", "err_on_defined", "profile_diff", "panic", "abort"}, {"*": 5}, {"*": 6},
                          {"assignments": 1, "boundary_pool": True, "full_placeholders": True, "max_assign": 700 if q else 8000,
                           "event_every": 500, "event_cap": 2000, "nontrivial_min_ops": 1}, evals=["dec"], invs=[])
 
